@@ -42,20 +42,45 @@ MANIFEST = dict(
     'per-class writers of get_signature; the reader after the engine\'s bioFormula::processFormula / extractParentheses / split / stoi, whose C++ '
     'source ships with the package): the reader inverts the writer on every line and every name (C01.text_roundtrip, text_carries_all), so the '
     'engine path through the bytes is the proved engine path (C01.engine_reads_text); the REAL bytes are parsed by the model on every case, '
-    'including a stream of adversarial names (blanks, brackets, commas, quotation marks, non-ASCII).',
+    'including a stream of adversarial names (blanks, brackets, commas, quotation marks, non-ASCII). '
+    'Round 3: the three operators that evaluate their argument several times are modelled on top of the unchanged shared language '
+    '(Model/ExprMC.lean: bioDraws read at the current draw, MonteCarlo = for-loop over the draws of the individual divided by their number, '
+    'PanelLikelihoodTrajectory = exp of the sum of logs over the rows of the individual; engine side after bioExprDraws / bioExprMontecarlo / '
+    'bioExprPanelTrajectory): serialise -> load -> run equals evaluation by name in every context (C01.mc_engine_correct, mc_engine_value), '
+    'MonteCarlo is the arithmetic mean over the draws and the trajectory the product over the rows (C01.monteCarlo_is_mean, '
+    'panelTrajectory_is_product), a draw outside MonteCarlo has no value, formulas without the new kinds keep their value '
+    '(C01.mc_conservative), and the reader inverts the writer on the three new classes (C01.mc_text_roundtrip, mc_engine_reads_text); '
+    'tie: generated formulas with 1-3 draw variables supplied by user generators, cross-sectional and panel data, MonteCarlo nested '
+    'under log / beside parameters / twice / shared, the REAL text + vectors + rows + table of draws + map of individuals recorded at the '
+    'calculator boundary and run by the model per individual. Edits of the parameters (Model/ExprEdit.lean: change_init_values, fix_betas) '
+    'change the declarations as stated and not the formula by name (C01.changeInit_decls/_value, fixBetas_decls/_value); tie: edit -> '
+    'evaluate on the real objects (also rename_elementary, get_beta_values, create_objective_function at a vector x). Operators with literals '
+    'of every Python type on either side, reflected and Python-2 operators, refusals (bool(), iteration, bad operand types), convert.py, '
+    'bioLinearUtility constructor forms and the calculator hand-over (dictionary values exactly 0 / missing / extra names / fixed, repeated '
+    'calls on one object, aggregation, gradient, number_of_draws, no database, missing-data code in a fresh process) are driven on the real '
+    'code against the independent oracle (props/c01_ops.py).',
     design='DESIGN.md §5 C01 and §10.1',
     technique='Lean 4 compiler-correctness proof over an executable DAG/engine model + differential correspondence with the real engine and Python evaluator',
     note='Partial: the C++ engine (cythonbiogeme) arithmetic is modelled from its source, not verified; Float vs real rounding by tolerance 1e-9; '
     'engine defects outside /repo are listed known findings '
     '(shared ConditionalSum condition node, BelongsTo members parsed as C float); the reading of decimal text as a double (std::stod / Python float) is a '
-    'parameter of the text theorems, supplied per token by the harness.',
+    'parameter of the text theorems, supplied per token by the harness. Round 3: Integrate / RandomVariable (Gauss-Hermite quadrature) and '
+    'Derive are not modelled; derivatives of formulas with draws are not compared (function values only); the table of draws is an input '
+    '(generation of draws is property C-draws, not C01).',
 )
 TRUSTED = [
     'C++ engine cythonbiogeme 1.0.4: modelled (Model/Engine.lean semEngine), validated by this correspondence',
     'Float (driver) vs real numbers (theorems): tolerance 1e-9 relative',
     'harness proxy of pyEvaluateOneExpression records what calculator.py passes to the engine',
+    'round 3: the table of draws of a case is supplied through user-defined generators (one per draw variable) and recorded at the '
+    'calculator boundary (setDraws / setDataMap / setData); how the library generates draws is not part of C01',
+    'round 3: the C++ code of bioExprDraws / bioExprMontecarlo / bioExprPanelTrajectory is modelled from its source (Model/ExprMC.lean), '
+    'validated by the correspondence; the sum over the draws is a left fold in the model as in the engine (tolerance 1e-9 covers the oracle\'s fsum)',
 ]
-ASSUMPTIONS = ['regular domain: log/power arguments > 0, denominators away from 0, keys present, chosen alternative available, |values| < 1e8']
+ASSUMPTIONS = ['regular domain: log/power arguments > 0, denominators away from 0, keys present, chosen alternative available, |values| < 1e8',
+               'round 3: the argument of PanelLikelihoodTrajectory is positive at every row (it is a probability; the engine takes its logarithm); '
+               'a parameter value is a number (int, float, bool, numpy integer/floating scalar) - a numpy boolean as a dictionary VALUE of the '
+               'pure-Python path is outside the domain (numpy refuses its subtraction)']
 RULE = (
     'typed DAGs (rejection-sampled into the regular domain against an independent oracle) over all 34 operator kinds, 1-4 parameters '
     '(free and fixed, appearance order != alphabetical), 1-4 rows, sharing probability 0.3, plus one stream forcing every kind at the root; '
@@ -63,7 +88,12 @@ RULE = (
     'not one (conditions, availabilities), constants needing all their digits; formulas without data variables (both evaluators, with and '
     'without a database); sum over the rows; sequences of numbering operations (1-3 formulas numbered side by side, 1-3 parts evaluated alone, '
     'formulas evaluated again; a formula outside the numbering evaluated in between); '
-    'non-trivial = depth >= 2 with >= 1 free parameter and >= 1 data variable; a sequence is non-trivial with >= 1 part evaluated alone and >= 1 parameter'
+    'non-trivial = depth >= 2 with >= 1 free parameter and >= 1 data variable; a sequence is non-trivial with >= 1 part evaluated alone and >= 1 parameter; '
+    'round 3: formulas with draws (1-3 parameters, 1-3 variables, 1-3 draw variables with user-supplied dyadic tables, R in {1,2,3,5}, 1-3 rows or 1-3 '
+    'individuals of 1-3 rows with labels != positions; shapes mc / log(mc) / mc beside an outside formula / two mc / one mc under two parents; non-trivial '
+    '= MonteCarlo over >= 1 draw variable with a free parameter and R >= 2); edits (objective / change_init / fix / rename on generated DAGs with >= 1 '
+    'parameter; non-trivial = data variable + depth >= 2); operator x literal-type sweep (48 operator forms x 9 literal types) and hand-over cases of 1-7 '
+    'calls on the same objects (props/c01_ops.py; non-trivial as counted there)'
 )
 TOL = 1e-9
 EXTRA_MODULES = ['Driver.Expr']
@@ -99,7 +129,25 @@ class Recorder:
 
     def setData(self, d):
         self.rec['columns'] = list(d.columns)
+        try:
+            self.rec['data'] = [[float(v) for v in r] for r in d.values.tolist()]
+        except (TypeError, ValueError):
+            self.rec['data'] = None
         return self._o.setData(d)
+
+    def setDraws(self, d):
+        try:
+            self.rec['draws'] = np.asarray(d, dtype=float).tolist()
+        except (TypeError, ValueError):
+            self.rec['draws'] = None
+        return self._o.setDraws(d)
+
+    def setDataMap(self, m):
+        try:
+            self.rec['map'] = np.asarray(m).tolist()
+        except (TypeError, ValueError):
+            self.rec['map'] = None
+        return self._o.setDataMap(m)
 
     def __getattr__(self, name):
         return getattr(self._o, name)
@@ -1250,6 +1298,22 @@ def in_process_streams(ctx, res, rng):
     py_stream(ctx, res, rng, ctx.n(150, 2000))
     for _ in range(ctx.n(6, 80)):
         simulate_check(ctx, res, rng)
+    # round 3: formulas with bioDraws / MonteCarlo / PanelLikelihoodTrajectory (Model/ExprMC.lean)
+    from props import c01_mc
+
+    c01_mc.mc_stream(ctx, res, rng, ctx.n(50, 900))
+    # round 3: edits of the formula object, then evaluation; create_objective_function (Model/ExprEdit.lean)
+    from props import c01_edit
+
+    c01_edit.edit_stream(ctx, res, rng, ctx.n(50, 900))
+    c01_edit.variants_stream(ctx, res, rng, ctx.n(60, 900))
+    # round 3: every operator with literals of every Python type on either side, reflected / Python-2 operators, what must be
+    # refused, convert.py, bioLinearUtility constructor forms; the calculator hand-over (dictionary contents, repeated calls,
+    # no database, missing-data code in a fresh process)
+    from props import c01_ops
+
+    c01_ops.ops_stream(ctx, res, rng, ctx.n(100, 1500))
+    c01_ops.handover_stream(ctx, res, rng, ctx.n(40, 600))
 
 
 def search(ctx, res, broken):
@@ -1280,10 +1344,62 @@ def _search_streams(ctx, r2, rng):
         py_stream(ctx, r2, rng, 300)
     if not r2.violations:
         seq_stream(ctx, r2, rng, 200)
+    if not r2.violations:
+        from props import c01_mc
+
+        c01_mc.mc_stream(ctx, r2, rng, 250)
+    if not r2.violations:
+        from props import c01_edit
+
+        c01_edit.edit_stream(ctx, r2, rng, 250)
+        c01_edit.variants_stream(ctx, r2, rng, 250)
+    if not r2.violations:
+        from props import c01_ops
+
+        c01_ops.ops_stream(ctx, r2, rng, 400)
+        c01_ops.handover_stream(ctx, r2, rng, 150)
 
 
 def replay(ctx, obj):
     case = obj.get('case') or {}
+    if 'draws' in case and 'nodes' in case:
+        from props import c01_mc
+
+        r = Result()
+        try:
+            c01_mc.check_case(ctx, r, {k: v for k, v in case.items() if k != 'individual'})
+        except Poisoned:
+            pass
+        ctx.batch.items.clear()
+        return {'property_fails': bool(r.violations), 'violations': r.violations[:3]}
+    if case.get('stream') in ('ops', 'handover'):
+        from props import c01_ops
+
+        r = Result()
+        try:
+            c01_ops.replay_case(ctx, r, case)
+        except Poisoned:
+            pass
+        return {'property_fails': bool(r.violations), 'violations': r.violations[:3]}
+    if 'variant' in case and 'nodes' in case:
+        from props import c01_edit
+
+        r = Result()
+        try:
+            c01_edit.check_variant(ctx, r, case)
+        except Poisoned:
+            pass
+        return {'property_fails': bool(r.violations), 'violations': r.violations[:3]}
+    if 'edit' in case and 'nodes' in case:
+        from props import c01_edit
+
+        r = Result()
+        try:
+            c01_edit.check_case(ctx, r, {k: v for k, v in case.items() if k != 'row'})
+        except Poisoned:
+            pass
+        ctx.batch.items.clear()
+        return {'property_fails': bool(r.violations), 'violations': r.violations[:3]}
     if 'nodes' not in case:
         return {'property_fails': False, 'note': 'no concrete input in this replay file'}
     if 'steps' in case:
